@@ -3,6 +3,7 @@ import Casm.Model.Show
 import Casm.Model.OutFormat
 import Casm.Model.Layout
 import Casm.Model.CharCounter
+import Casm.Model.FileNav
 /-! casm-model: answers the line protocol from the Lean model's executable definitions. -/
 open Casm
 
@@ -142,6 +143,53 @@ def step (line : String) : String :=
         | none => "panic"
       s!"{line} {col} {a} {b} {lineCount s} {ex}"
     | _, _ => "bad-op"
+  | ["nav", c, r] =>
+    match filenameNavigate (unhexText c) (unhexText r) with
+    | .ok p => s!"ok {hexOfChars p}"
+    | .error .invalidFilename => "err invalid filename"
+    | .error .outOfProject => "err cannot navigate out of project directory"
+  | "inc" :: root :: files =>
+    -- files: name_hex=op;op;...  with ops i<rel_hex> | o | m<k>
+    let fs : Files := files.filterMap fun f =>
+      match f.splitOn "=" with
+      | [n, ops] =>
+        let os : List FOp := (if ops == "" then [] else ops.splitOn ";").filterMap fun o =>
+          match o.toList with
+          | 'i' :: r => some (.include (unhexText (String.ofList r)))
+          | ['o'] => some .once
+          | 'm' :: r => (String.ofList r).toNat?.map .marker
+          | _ => none
+        some (unhexText n, os)
+      | _ => none
+    match expandFile fs (expandFuel fs) (unhexText root) [] [] with
+    | .ok (ms, _) => s!"ok {" ".intercalate (ms.map toString)}"
+    | .error .notFound => "err notFound"
+    | .error (.nav .invalidFilename) => "err invalid filename"
+    | .error (.nav .outOfProject) => "err cannot navigate out of project directory"
+    | .error .recursive => "err recursive"
+    | .error .fuel => "err fuel"
+  | ["incbin", bytes, args, start, size] =>
+    let bs := if bytes == "-" then [] else unhexBytes bytes.toList
+    match args.toNat?, start.toNat?, size.toNat? with
+    | some a, some s, some z =>
+      match incbinRange bs a s z with
+      | .ok r => s!"ok {hexOfBytes r}"
+      | .error .startsAfterEof => "err startsAfterEof"
+      | .error .endsAfterEof => "err endsAfterEof"
+      | .error .invalidChar => "err invalidChar"
+    | _, _, _ => "bad-op"
+  | ["incstr", k, text, args, start, size] =>
+    match k.toNat?, args.toNat?, start.toNat?, size.toNat? with
+    | some k, some a, some s, some z =>
+      match incstrDigits k (unhexText text) with
+      | .error _ => "err invalidChar"
+      | .ok ds =>
+        match incstrRange ds a s z with
+        | .ok r => s!"ok {" ".intercalate (r.map toString)}"
+        | .error .startsAfterEof => "err startsAfterEof"
+        | .error .endsAfterEof => "err endsAfterEof"
+        | .error .invalidChar => "err invalidChar"
+    | _, _, _, _ => "bad-op"
   | _ => "bad-op"
 
 partial def loop (h : IO.FS.Stream) (out : IO.FS.Stream) : IO Unit := do
